@@ -111,7 +111,10 @@ def apply_impl(fd, op):
   if op[0] == 'slice':
     return fd.slice(op[1], op[2])
   if op[0] == 'subset':
-    return fdm.SubsetFederatedData(fd, SUBSETS[op[1]])
+    # the id collection is given as a tuple, a generator or a list iterator depending on the subset (any iterable is legal)
+    ids = SUBSETS[op[1]]
+    how = {'S_mid': lambda x: (c for c in x), 'S_all': lambda x: iter(list(x)), 'S_dup': lambda x: (c for c in x)}.get(op[1], tuple)
+    return fdm.SubsetFederatedData(fd, how(ids))
   if op[0] == 'pc':
     return fd.preprocess_client(CF[op[1]])
   if op[0] == 'pb':
@@ -255,6 +258,12 @@ def observe(fd, ref, what, nc, light=False):
       alone = [c for c, _ in itertools.islice(fd.shuffled_clients(buffer_size=buf, seed=5), n)]
       require(pa == alone, what + ': a seeded shuffled pass interleaved with another one differs from the same pass alone',
               [bytes(c).hex() for c in alone], [bytes(c).hex() for c in pa], case=nc)
+    # a bulk request may name a client more than once (sampling with replacement, repeated participation)
+    rep = [ids[0], ids[-1], ids[0]] if n > 1 else [ids[0], ids[0]]
+    got = [(c, _ex(ds, what, nc)) for c, ds in fd.get_clients(rep)]
+    require([c for c, _ in got] == rep and all(ex == expect_examples(c) for c, ex in got), what + ': get_clients with a repeated id '
+            'does not return every requested occurrence in request order', [c.hex() for c in rep], [bytes(c).hex() for c, _ in got],
+            case=nc)
     # bulk get takes any iterable of ids, also one-pass ones
     sel = [ids[-1], ids[0]] if n > 1 else [ids[0]]
     for nm, req in (('iter(list)', iter(list(sel))), ('generator', (c for c in sel)), ('map', map(bytes, sel)),
